@@ -284,6 +284,23 @@ pub fn check(case: &Case, idx: u64, acc: &mut Acc) {
                     }
                     let u = UnionCal::new(vec![bus], Some(vec![Cal::new(b.iter().map(|z| to_ndt(*z)).collect(), mask_vec(*sm))]));
                     check_cal(&u, &bm, z0 - 1, z0 + wl, &ns, true, "UnionCal", case, idx, acc);
+                    // the same calendar with its working weeks SPLIT over two members and two settlement calendars
+                    // (each closes some of the weekdays; holidays sit in the one listed first or second by case
+                    // index) - every member's and every settlement calendar's own week must be honoured
+                    if idx % 5 == 0 {
+                        let split = |m: u8| -> (u8, u8) {
+                            let lo_bit = m & m.wrapping_neg(); // lowest closed weekday
+                            if m == lo_bit { (0, m) } else { (m & !lo_bit, lo_bit) } // (listed first, listed second)
+                        };
+                        let (b1, b2) = split(*bmask);
+                        let (s1, s2) = split(*sm);
+                        let hol: Vec<_> = nn.iter().map(|z| to_ndt(*z)).collect();
+                        let sh: Vec<_> = b.iter().map(|z| to_ndt(*z)).collect();
+                        let (m1, m2) = if idx % 2 == 0 { (Cal::new(hol.clone(), mask_vec(b1)), Cal::new(vec![], mask_vec(b2))) } else { (Cal::new(vec![], mask_vec(b1)), Cal::new(hol.clone(), mask_vec(b2))) };
+                        let (t1, t2) = if idx % 2 == 0 { (Cal::new(vec![], mask_vec(s1)), Cal::new(sh.clone(), mask_vec(s2))) } else { (Cal::new(sh.clone(), mask_vec(s1)), Cal::new(vec![], mask_vec(s2))) };
+                        let us = UnionCal::new(vec![m1, m2], Some(vec![t1, t2]));
+                        check_cal(&us, &bm, z0 - 1, z0 + wl, &ns, false, "UnionCal/split-weeks", case, idx, acc);
+                    }
                 }
             }
             if idx % 211 == 0 {
@@ -421,7 +438,7 @@ pub fn run(ctx: &Ctx, replay_file: Option<String>) -> ! {
          window, on top of periodic week masks for the business calendar (none, Sat-Sun, Fri-Sat, Mon-Fri closed) and \
          the settlement calendar (absent, Sat-Sun, Sun+Mon, none); EVERY i8 day count, both settlement flags, every \
          start date of the window +-1: add_bus_days (value, error on a non-business start, inverse law), lag, \
-         add_days under all 5 modifiers, bus_date_range and cal_date_range for every (start, end) pair; the holiday vector is handed over in date order, reversed, interleaved or with every date twice (by case index). (1b) long runs of 12, 35, 64, 367 and 430 consecutive closures at every weekday alignment, every i8 count from the days \
+         add_days under all 5 modifiers, bus_date_range and cal_date_range for every (start, end) pair; every fifth case also as a union whose members (and settlement calendars) each close only some of the weekdays; the holiday vector is handed over in date order, reversed, interleaved or with every date twice (by case index). (1b) long runs of 12, 35, 64, 367 and 430 consecutive closures at every weekday alignment, every i8 count from the days \
          around both ends of the run. (2) named calendars (those with settlement calendars also wrapped in the CalType container): every date \
          of several years x every i8; every built-in calendar over every date 1970-2200 x a reduced count menu \
          (|n|<=10 and +-20,63,64,100,126,127,-128). Oracle: index arithmetic on the sorted list of the calendar's own \
